@@ -83,6 +83,56 @@ def unfold_k(E, D):
         E.assume(SBool(z3.Implies(HNode.is_HExt(D), z3.And(z3.Length(t) == 1, t[0] == HNode.epath(D)))))
 
 
+# ---- order facts --------------------------------------------------------------------------------------------------
+lexlt = None
+
+
+def _lexlt():
+    from pyvc import specfn
+    return specfn.lexlt
+
+
+def unfold_lexlt(E, x, y):
+    """definition of the lexicographic order (Python tuple order; Lean: Fog.lt) at (x, y)"""
+    lt = _lexlt()
+    lx, ly = z3.Length(x), z3.Length(y)
+    E.assume(mk_bool(lt(x, y) == z3.If(lx == 0, ly > 0,
+                                       z3.If(ly == 0, False,
+                                             z3.Or(x[0] < y[0], z3.And(x[0] == y[0], lt(HM.tail(x, 1), HM.tail(y, 1))))))))
+
+
+def lt_irrefl_fact(x):
+    """instance of Lean theorem Fog.lt_irrefl"""
+    return z3.Not(_lexlt()(x, x))
+
+
+def lt_append_left_fact(p, x, y):
+    """instance of Lean theorem Fog.lt_append_left"""
+    lt = _lexlt()
+    return lt(z3.Concat(p, x), z3.Concat(p, y)) == lt(x, y)
+
+
+def lemma_first_is_first(E):
+    """no occupied slot lies before the first occupied slot"""
+    D = z3.Const("D", HNode)
+    j = z3.Int("j")
+    HC.reveal_child_at(E, D, j)
+    fi, fr = first_child(E, D)
+    E.prove("first_is_first", SBool(first_is_first_fact(E, D, j)), kind="lemma")
+
+
+def first_is_first_fact(E, D, j):
+    fi, fr = first_child(E, D)
+    return z3.Implies(z3.And(j >= 0, j <= 15, z3.Not(HRef.is_RBlank(HC.child_at(D, j)))), z3.And(any_child(D), fi <= j))
+
+
+QN = z3.Const("qn!probe", SeqI)        # ghost: an arbitrary nibble key (the `least` clause is proved for it)
+
+
+def least_clause(D, q):
+    return z3.Implies(z3.Length(HM.hlk(D, q)) > 0, z3.Not(_lexlt()(q, kmin(D))))
+
+
 def mk_iter(E):
     t = HC.read_trie(E)
     return Obj(objs.cls_of(E, MOD, "NodeIterator"), {"_trie": t})
@@ -152,11 +202,36 @@ def gnk_cases(E, ctx):
                     ("step/rest-of-the-first-key", mk_bool(z3.And(
                         z3.Implies(is_br, HM.tail(km, 1) == kmin(br_c)),
                         z3.Implies(HNode.is_HExt(D), HM.tail(km, z3.Length(HNode.epath(D))) == kmin(ext_c)))))]
+        # ---- kmin(D) is the least stored key: for the arbitrary probe QN, stored(QN) => not QN < kmin(D)
+        ep = HNode.epath(D)
+        stored = z3.Length(HM.hlk(D, QN)) > 0
+        HM.unfold_hlk(E, D, QN, depth=1)
+        E.assume(mk_bool(branch_step_fact(E, D, QN)))                       # instance of lemma branch_step
+        HC.reveal_child_at(E, D, QN[0])
+        E.assume(SBool(first_is_first_fact(E, D, QN[0])))                   # instance of lemma first_is_first
+        unfold_lexlt(E, QN, km)
+        E.assume(mk_bool(lt_irrefl_fact(QN)))                               # Lean Fog.lt_irrefl
+        restq = HM.tail(QN, z3.Length(ep))
+        E.assume(mk_bool(lt_append_left_fact(ep, restq, kmin(ext_c))))      # Lean Fog.lt_append_left
+        SL.use(E, "prefix_is_slice", ep, QN)
+        SL.use(E, "split2", QN, z3.Length(ep)) if "split2" in SL.ALL else None
+        SL.use(E, "tail_concat", z3.Unit(fi), kmin(br_c), z3.IntVal(1))
+        least = []
+        for (Dn, D0, K) in E.ghost.get("reached_rules", []):
+            # the callee's `least` clause (proved for an arbitrary probe) at the rest of this probe
+            for qq in (HM.tail(QN, 1), restq):
+                E.assume(mk_bool(least_clause(Dn, qq)))
+            least += [("least/a-stored-key-starts-at-or-after-the-first-slot",
+                       mk_bool(z3.Implies(z3.And(is_br, stored), z3.And(z3.Length(QN) > 0, QN[0] >= fi)))),
+                      ("least/below-an-extension-the-key-runs-through-it",
+                       mk_bool(z3.Implies(z3.And(HNode.is_HExt(D), stored), z3.And(z3.PrefixOf(ep, QN), QN == z3.Concat(ep, restq)))))]
+        least.append(("the-first-key-is-the-least-stored-key", mk_bool(least_clause(D, QN))))
         return aux + [("is-traversed-plus-the-first-key", mk_bool(ops.seq_term_as(r, "int") == z3.Concat(T, km))),
-                      ("the-first-key-is-stored", mk_bool(z3.Length(HM.hlk(D, km)) > 0))]
+                      ("the-first-key-is-stored", mk_bool(z3.Length(HM.hlk(D, km)) > 0))] + least
 
     def make_key():
         E.assume(mk_bool(z3.Length(HM.hlk(D, kmin(D))) > 0))
+        E.assume(mk_bool(least_clause(D, QN)))
         return SSeq(z3.simplify(z3.Concat(T, kmin(D))), "tuple", "int", rng=(0, 15))
     return [Case("first-key", when=mk_bool(khas(D)), ensures=ens_key if unit_mode else None,
                  make=None if unit_mode else make_key),
@@ -169,6 +244,7 @@ def register(reg):
     from pyvc.unit import Lemma
     reg.add_lemma("iter", Lemma("lemma:branch_step", ("C10",), lemma_branch_step))
     reg.add_lemma("iter", Lemma("lemma:unit_first", ("C10",), lemma_unit_first))
+    reg.add_lemma("iter", Lemma("lemma:first_is_first", ("C10",), lemma_first_is_first))
 
     g = "iter"
     N = MOD + ":NodeIterator."
@@ -197,7 +273,11 @@ def next_cases(E, ctx):
             return [("returns-a-key", False)]
         rt = ops.seq_term_as(r, "int")
         return [("its-nibbles-are-the-first-key", mk_bool(B2N(rt) == km)),
-                ("it-is-a-stored-key", mk_bool(z3.Length(HM.hlk(D0, B2N(rt))) > 0))]
+                ("it-is-a-stored-key", mk_bool(z3.Length(HM.hlk(D0, B2N(rt))) > 0)),
+                # for an arbitrary nibble key QN: if it is stored it is not smaller (Lean Fog.nibs_lt: the order of byte
+                # keys is the order of their nibble sequences)
+                ("no-stored-key-is-smaller", mk_bool(z3.Implies(z3.Length(HM.hlk(D0, QN)) > 0,
+                                                                z3.Not(_lexlt()(QN, B2N(rt))))))]
     return [Case("first-key", when=mk_bool(z3.And(khas(D0), fine)), ensures=ens, modifies=[]),
             Case("empty-trie", when=mk_bool(z3.Not(khas(D0))), returns=lambda: None, modifies=[]),
             Case("first-key-is-not-a-byte-string", when=mk_bool(z3.And(khas(D0), z3.Not(fine))),
